@@ -32,6 +32,10 @@ DT_KINDS = ['dt64s', 'dt64ms', 'dt64us', 'dt64ns']
 TZ_KINDS = ['dttz_utc', 'dttz_ny']
 ODATE_KINDS = ['odate', 'odatetime']
 
+# an object column holding only the numbers 0 and 1 (flags read from a
+# loosely typed source); tdda types it 'string'.  Used by C02 only.
+EXTRA_KINDS = ['onum']
+
 ALL_KINDS = (list(INT_KINDS) + list(NULLABLE_INT_KINDS) + FLOAT_KINDS
              + BOOL_KINDS + STR_KINDS + DT_KINDS + TZ_KINDS + ODATE_KINDS)
 
@@ -47,7 +51,7 @@ def tdda_type(kind):
         return 'real'
     if kind in BOOL_KINDS:
         return 'bool'
-    if kind in STR_KINDS:
+    if kind in STR_KINDS or kind == 'onum':
         return 'string'
     return 'date'
 
@@ -294,7 +298,7 @@ def build_series(col):
     if kind == 'boolean':
         return pd.Series(pd.array([pd.NA if v is None else v for v in vals],
                                   dtype='boolean'))
-    if kind in ('obool', 'ostr', 'odate', 'odatetime'):
+    if kind in ('obool', 'ostr', 'odate', 'odatetime', 'onum'):
         if kind == 'ostr' and len(vals) % 2 == 1 and sum(
                 1 for v in vals if v is None) >= 2:
             # nulls of more than one kind in one object column (None and
@@ -352,7 +356,12 @@ def valid_frame(desc):
         if len(set(names)) != len(names) or not names:
             return False
         for c in desc['cols']:
-            if c['kind'] not in ALL_KINDS or len(c['cells']) != n:
+            if (c['kind'] not in ALL_KINDS + EXTRA_KINDS
+                    or len(c['cells']) != n):
+                return False
+            if c['kind'] == 'onum' and not all(
+                    v is None or (type(v) is int and v in (0, 1, 2))
+                    for v in c['cells']):
                 return False
             if not isinstance(c['name'], str) or not c['name']:
                 return False
